@@ -397,7 +397,7 @@ fn check_tx_validity<C: ContentAddrStore>(
         .get(&(this.height.0.saturating_sub(1).into()))
         .unwrap_or_else(|| this.clone().seal(None).header());
 
-    let mut good_scripts: FxHashSet<Address> = FxHashSet::default();
+    let good_scripts: FxHashSet<Address> = FxHashSet::default();
     for (spend_idx, coin_id) in tx.inputs.iter().enumerate() {
         // Workaround for BUGGY old code!
         // TODO: add some details for this
@@ -412,19 +412,17 @@ fn check_tx_validity<C: ContentAddrStore>(
         match coin_data {
             None => return Err(StateError::NonexistentCoin(*coin_id)),
             Some(coin_data) => {
-                if !good_scripts.contains(&coin_data.coin_data.covhash) {
-                    validate_tx_scripts(
-                        spend_idx,
-                        coin_id,
-                        tx,
-                        coin_data,
-                        last_header,
-                        scripts.clone(),
-                        &good_scripts,
-                    )?;
-
-                    good_scripts.insert(coin_data.coin_data.covhash);
-                }
+                // every input is checked in its own environment: a covenant may depend on the coin being spent and on
+                // its position among the inputs, so one approval says nothing about another input with the same covenant
+                validate_tx_scripts(
+                    spend_idx,
+                    coin_id,
+                    tx,
+                    coin_data,
+                    last_header,
+                    scripts.clone(),
+                    &good_scripts,
+                )?;
 
                 let amount = in_coins.get(&coin_data.coin_data.denom).unwrap_or(&0)
                     + coin_data.coin_data.value.0;
